@@ -25,6 +25,8 @@ pub fn gen_value_case(g: &mut G, cfg: &gs::Cfg, op: &str, n_valid: usize, n_mut:
         // KF-004 (optional cyclic member serialises `null`) avoided by construction
         let n = gs::make_optional_cyclic_refs_nullable(&mut doc);
         gen::excluded("optional-cyclic-ref-made-nullable", n);
+        // schema defaults on optional scalar / container properties
+        add_property_defaults(g, &mut doc);
     }
     let names = gs::def_names(&doc);
     let mut roots = vec![];
@@ -35,7 +37,11 @@ pub fn gen_value_case(g: &mut G, cfg: &gs::Cfg, op: &str, n_valid: usize, n_mut:
         let mut inst = Inst::new(&doc);
         for k in 0..n_valid {
             inst.boundary = k % 3 == 2;
-            let v = inst.gen(g, &schema, 3);
+            let mut v = inst.gen(g, &schema, 3);
+            if op == "rt" && k % 4 == 3 {
+                // members present with their empty values ({} / [] / ""), next to schema defaults
+                empty_some_members(g, &mut v);
+            }
             let tag = if inst.boundary { "boundary" } else { "valid-by-construction" };
             if n_mut > 0 && k < 2 {
                 for (t, m) in mutants(g, &v, n_mut) {
@@ -186,9 +192,72 @@ pub fn value_case_in_faithful(case_v: &Value) -> bool {
         return false;
     }
     let Step::Root { doc } = &case.history[0] else { return false };
-    if !gs::doc_in_faithful(doc) {
+    // property `default`s (used by C03) are annotations as far as the fragment goes
+    if !gs::doc_in_faithful(&strip_defaults(doc)) {
         return false;
     }
     let names = gs::def_names(doc);
     case.roots.iter().all(|r| matches!(r, RootSel::Ref { r } if r.strip_prefix("#/definitions/").map(|n| names.iter().any(|d| d == n)).unwrap_or(false)))
+}
+
+/// Attach a (valid, non-empty) `default` to some non-required properties whose
+/// schema is a plain scalar, array of scalars or map of scalars.
+pub fn add_property_defaults(g: &mut G, doc: &mut Value) {
+    let Some(defs) = doc.get_mut("definitions").and_then(|d| d.as_object_mut()) else { return };
+    for (_, d) in defs.iter_mut() {
+        gs::for_each_object_schema(d, &mut |o| {
+            let required: Vec<String> = o.get("required").and_then(|r| r.as_array()).map(|a| a.iter().filter_map(|x| x.as_str().map(|s| s.to_string())).collect()).unwrap_or_default();
+            if let Some(ps) = o.get_mut("properties").and_then(|p| p.as_object_mut()) {
+                for (pn, ps) in ps.iter_mut() {
+                    if required.contains(pn) || !g.chance(1, 3) {
+                        continue;
+                    }
+                    let Some(po) = ps.as_object() else { continue };
+                    let plain = po.keys().all(|k| matches!(k.as_str(), "type" | "items" | "additionalProperties"));
+                    let default = match (po.get("type").and_then(|t| t.as_str()), plain) {
+                        (Some("integer"), true) => json!(7),
+                        (Some("string"), true) => json!("dflt"),
+                        (Some("boolean"), true) => json!(true),
+                        (Some("array"), true) if po.get("items") == Some(&json!({"type": "integer"})) || po.get("items") == Some(&json!({"type": "string"})) => {
+                            if po["items"]["type"] == "integer" {
+                                json!([1, 2])
+                            } else {
+                                json!(["a"])
+                            }
+                        }
+                        (Some("object"), true) if po.get("additionalProperties") == Some(&json!({"type": "integer"})) => json!({"k": 1}),
+                        (Some("object"), true) if po.get("additionalProperties") == Some(&json!({"type": "string"})) => json!({"env": "prod"}),
+                        (Some("object"), true) if po.get("additionalProperties") == Some(&json!({"type": "boolean"})) => json!({"on": true}),
+                        _ => continue,
+                    };
+                    ps["default"] = default;
+                }
+            }
+        });
+    }
+}
+
+fn empty_some_members(g: &mut G, v: &mut Value) {
+    match v {
+        Value::Object(o) => {
+            for (_, x) in o.iter_mut() {
+                match x {
+                    Value::Object(m) if g.chance(1, 2) && m.values().all(|y| !y.is_object() && !y.is_array()) => *x = json!({}),
+                    Value::Array(a) if g.chance(1, 2) && a.iter().all(|y| !y.is_object() && !y.is_array()) => *x = json!([]),
+                    Value::String(_) if g.chance(1, 4) => *x = json!(""),
+                    other => empty_some_members(g, other),
+                }
+            }
+        }
+        Value::Array(a) => a.iter_mut().for_each(|x| empty_some_members(g, x)),
+        _ => {}
+    }
+}
+
+fn strip_defaults(v: &Value) -> Value {
+    match v {
+        Value::Object(o) => Value::Object(o.iter().filter(|(k, _)| k.as_str() != "default").map(|(k, x)| (k.clone(), strip_defaults(x))).collect()),
+        Value::Array(a) => Value::Array(a.iter().map(strip_defaults).collect()),
+        x => x.clone(),
+    }
 }
